@@ -661,6 +661,15 @@ def check_grid2d(ctx, i):
             ctx.check(isinstance(res, aa.Array1D) and _np(res.slim).shape == exp.shape and np.array_equal(_np(res.slim), exp)
                       and not np.asarray(res.mask).any(), "project.grid2d.pairing", result_type=type(res).__name__, expected=exp, got=lambda: _np(res), **W)
             ctx.classes["project2d_points:%s" % ("1" if len(line) == 1 else "2-4" if len(line) <= 4 else "5+")] += 1
+    # a spherical profile: it has a centre but no `angle` attribute at all - the projected line still starts at its centre
+    p_sph = ctx.profiles[prof_name](tags, centre=centre, angle=None)
+    del p_sph.angle
+    ok, res, log = call_logged(ctx, p_sph, "project.exception", p_sph.f_project, grid)
+    if ok:
+        line = log[0][1] if len(log) == 1 else None
+        good = line is not None and line.ndim == 2 and line.shape[1] == 2 and len(line) >= 1 and \
+            bool(np.all(np.abs(line[0] - np.asarray(centre)) <= 1e-10 * max(1.0, float(np.max(np.abs(line))))))
+        ctx.check(good, "project.grid2d.line", profile="has a centre and no angle attribute", received=line, **W)
     # radial minimum + transform
     check_radial_and_transform(ctx, prof_name, p, grid, gin, W, aa.Grid2D,
                                lambda q: same_mask2d(q, m, scales, origin))
